@@ -1,10 +1,12 @@
 #!/bin/bash
-# tools/run_all.sh [tier] — run every check in MANIFEST sequentially, summarise
-tier="${1:-quick}"
+# tools/run_all.sh [tier] [ids...] — run checks sequentially, one summary line each; RUN_TIMEOUT=<s> caps each check
+tier="${1:-quick}"; shift
 cd /verif
-for pid in $(python3 -c "import json;print(' '.join(c['property_id'] for c in json.load(open('MANIFEST.json'))['checks']))"); do
+ids="$@"
+[ -z "$ids" ] && ids=$(python3 -c "import json;print(' '.join(c['property_id'] for c in json.load(open('MANIFEST.json'))['checks']))")
+for pid in $ids; do
   s=$(date +%s)
-  out=$(./check "$pid" --tier "$tier" 2>&1); rc=$?
+  if [ -n "${RUN_TIMEOUT:-}" ]; then out=$(timeout -k 10 "$RUN_TIMEOUT" ./check "$pid" --tier "$tier" 2>&1); rc=$?; else out=$(./check "$pid" --tier "$tier" 2>&1); rc=$?; fi
   echo "$pid rc=$rc $(( $(date +%s) - s ))s :: $(echo "$out" | tail -1 | cut -c1-220)"
-  echo "$out" | grep -E "^(VIOLATION|KNOWN-FINDING|HARNESS-ERROR)" | cut -c1-300
+  echo "$out" | grep -a -E "^(VIOLATION|KNOWN-FINDING|HARNESS-ERROR|NOTE)" | cut -c1-300
 done
